@@ -8,7 +8,7 @@ from manifest_texts import TEXTS, PENDING_REASON
 
 VERIF = os.path.normpath(os.path.join(HERE, ".."))
 ids = [json.loads(l)["id"] for l in open(os.path.join(VERIF, "properties.jsonl"))]
-hooks_commits = ["ddefcbe", "3cde7fd", "539adb5", "57b2b04", "a3f79a8", "9639cbb", "9b62803"]
+hooks_commits = ["ddefcbe", "3cde7fd", "539adb5", "57b2b04", "a3f79a8", "9639cbb", "9b62803", "8b3b9ad"]
 m = {
     "version": 1,
     "setup_cmd": "python3 tools/check.py --setup",
